@@ -62,7 +62,11 @@ def make_case(rng, kind, c):
         ddtype = "float64"
     ddat = ddat.astype(ddtype)
     if rng.random() < 0.4:
-        nidx = sorted({int(x) for x in rng.choice(n, size=int(rng.integers(1, 4)))})
+        nidx = [int(x) for x in rng.choice(n, size=int(rng.integers(1, 5)))]
+        if rng.random() < 0.5:
+            nidx = nidx + nidx[:1 + len(nidx) // 2]      # a flux assembled edge by edge lists a vertex once per incident edge: contributions add up
+        else:
+            nidx = sorted(set(nidx))
         ndat = rng.normal(size=len(nidx))
         ntup = (np.array(nidx), ndat)
     else:
